@@ -27,7 +27,10 @@ ALPHABET = [b'a', b'B', b'z', b'0', b'9', b'_', b'-', b'.', b'/', b',',
 SWEEP_ALPHABET = [b'a', b'Z', b'0', b'_', b'-', b'.', b'/', b',', b'=', b':',
                   b'#', b'+', b' ', b'\t', b'\xe9', b'9']
 VALID_PIECES = [b'a=b', b'k=1', b'x-y=z_w', b'A0=-5', b'q=/p/q.r', b'k_=.',
-                b'key=007', b'n=-', b'm=a/b', b'Z9_=9Z', b'a=1.5']
+                b'key=007', b'n=-', b'm=a/b', b'Z9_=9Z', b'a=1.5',
+                b'big=1234567890123456789', b'neg=-999999999999999999',
+                b'u64=18446744073709551615', b'my-option=value',
+                b'pad=000000000000000000007']
 RULE = ('seeded option strings (length up to ~12 symbols over a 21-symbol '
         'alphabet, biased to one edit away from a valid option list) placed '
         'on a change/file header of a well-formed file, in 4 header '
@@ -98,10 +101,13 @@ def gen_optstr(rng):
     elif k == 4 and s:
         s = s + b'\r'            # a stray CR at the end of the line
 
+    if rng.chance(0.03):
+        s = b''                 # the bare header
+
     return s
 
 
-def build(ctx, optstr, crlf=False, own_lf=False, blanks=0):
+def build(ctx, optstr, crlf=False, own_lf=False, blanks=0, lead=0):
     data, idx = _build(ctx, optstr, crlf, own_lf)
 
     if blanks:
@@ -114,6 +120,11 @@ def build(ctx, optstr, crlf=False, own_lf=False, blanks=0):
         if tgt is not None and tgt < len(lines):
             lines[tgt:tgt] = [nl[:-1]] * int(blanks)
             data = b'\n'.join(lines)
+
+    if lead:
+        # a blank line before the main header, in the other newline style
+        # than the headers' (the file's style is that of its first header)
+        data = (b'\n' if crlf else b'\r\n') * int(lead) + data
 
     return data, idx
 
@@ -166,6 +177,7 @@ def generate(rng, tier, cls):
             'short_hdr': rng.randint(0, 999) if rng.chance(0.12) else None,
             'shadow': rng.below(50) if rng.chance(0.08) else None,
             'blanks': rng.choice([0] * 20 + [1, 3, 200, 1200, 5000]),
+            'lead': rng.choice([0] * 12 + [1, 2]),
             'block_size': rng.choice([None, None, 1, 5, 97])}
 
 
@@ -239,7 +251,8 @@ def execute(scn, L):
     own_lf = crlf and bool(scn.get('own_lf'))
     blanks = scn.get('blanks') if isinstance(scn.get('blanks'), int) and \
         0 <= scn.get('blanks') <= 6000 else 0
-    data, idx = build(ctx, optstr, crlf, own_lf, blanks)
+    data, idx = build(ctx, optstr, crlf, own_lf, blanks,
+                      scn.get('lead') if scn.get('lead') in (1, 2) else 0)
     line = build_lf(ctx, optstr)[0].split(b'\n')[
         {'change': 1, 'file': 2, 'change2': 5}[ctx]]
     # in a CRLF file the line the grammar sees is the text before the CRLF
@@ -317,7 +330,7 @@ def execute(scn, L):
 
     # options verbatim, integers converted
     pairs = [p.split(b'=', 1) for p in optstr[1:].split(b', ')] \
-        if optstr else []
+        if optstr and parsed[2] else []
     keys = [p[0] for p in pairs]
     vals = [p[1].decode('ascii') for p in pairs]
 
